@@ -143,7 +143,7 @@ def _end_like(func: ast.AST, expr: ast.AST, depth: int = 0) -> bool:
         if isinstance(node, ast.Attribute) and node.attr == "end":
             return True
         if isinstance(node, ast.Name) and depth < 3:
-            if node.id in ("end", "ne", "dna_end"):
+            if node.id == "ne" or "end" in node.id.lower().split("_"):
                 return True
             for value in bound_from(func, node.id):
                 if value is not expr and _end_like(func, value, depth + 1):
